@@ -33,6 +33,7 @@ def _reexec_if_needed() -> None:
     new["PYTHONPATH"] = os.pathsep.join([want_pp, str(ROOT)] + ([env["PYTHONPATH"]] if env.get("PYTHONPATH") else []))
     new.setdefault("MPLBACKEND", "Agg")
     new["PYTHONWARNINGS"] = "ignore"
+    new["TQDM_DISABLE"] = "1"
     os.execve(sys.executable, [sys.executable, "-m", "vlib.run", *sys.argv[1:]], new)
 
 
@@ -57,6 +58,16 @@ def _import_mxlpy_and_redirect_home(work: Path) -> None:
     home.mkdir(parents=True, exist_ok=True)
     os.environ["HOME"] = str(home)
     logging.disable(logging.CRITICAL)
+    # progress bars only (no semantics): keep check output readable
+    import mxlpy.parallel as _par
+
+    _real_tqdm = _par.tqdm
+
+    def _quiet_tqdm(*a, **k):
+        k["disable"] = True
+        return _real_tqdm(*a, **k)
+
+    _par.tqdm = _quiet_tqdm
 
 
 def main() -> int:
@@ -108,9 +119,14 @@ def _collect(mod, ctx, examples_override=None) -> None:
         for case in mod.enumerate_cases(ctx.tier, ctx.shard or 0, ctx.nshards, ctx):
             out = core.safe_examine(mod, case, ctx)
             ctx.record(case, out)
-    if hasattr(mod, "strategy"):
+    sd = ctx.seed if ctx.shard is None else ctx.seed * 1000 + ctx.shard
+    if hasattr(mod, "strategies"):
+        # one generated run per input class with its own case budget, so that every class is covered
+        # whatever Hypothesis' internal distribution does
+        for label, strat, n in mod.strategies(ctx.tier):
+            core.collect_hypothesis(mod, ctx, n, sd, b.get("time_budget"), strat=strat)
+    elif hasattr(mod, "strategy"):
         n = examples_override or b["examples"]
-        sd = ctx.seed if ctx.shard is None else ctx.seed * 1000 + ctx.shard
         core.collect_hypothesis(mod, ctx, n, sd, b.get("time_budget"))
     if hasattr(mod, "finish"):
         mod.finish(ctx)
